@@ -146,6 +146,12 @@ impl InputList {
         loop {
             let ev = reader.read_event_into(&mut buf);
             let event_lines = if let Ok(ok_ev) = ev.clone() {
+                // Everything downstream treats event content as text
+                if std::str::from_utf8(ok_ev.as_ref()).is_err() {
+                    return Err(SvgdxError::ParseError(format!(
+                        "Invalid UTF-8 near line {src_line}"
+                    )));
+                }
                 ok_ev.as_ref().iter().filter(|&c| *c == b'\n').count()
             } else {
                 0
